@@ -52,11 +52,12 @@ def gen_phased(rng):
         mode = {d: rng.choice(["specific", "specific", "any", "src_anytag", "anysrc_tag"]) for d in range(np_)}
         pre = {d: rng.chance(1, 2) for d in range(np_)}
         maxsz = max(m["size"] for m in ph)
+        mixed = rng.chance(1, 6)      # receive buffers of different sizes (truncation, receives on both sides of the threshold)
         steps = {r: {1: [], 2: [], 3: [], 4: []} for r in range(np_)}
         for m in ph:
             d = m["dst"]
             f = filt(mode[d], m)
-            buf = rng.choice([m["size"], maxsz, maxsz, m["size"] + 1, max(16, m["size"] - 1)])
+            buf = rng.choice([m["size"], maxsz, maxsz, m["size"] + 1, max(16, m["size"] - 1)]) if mixed else maxsz
             r = {"rid": len(rcvs), "rank": d, "src": f[0], "tag": f[1], "buf": buf}
             rcvs.append(r)
             if pre[d]:
@@ -111,9 +112,10 @@ def gen_staged(rng, planted=None):
         msgs = [{"mid": i, "src": 1, "dst": 0, "tag": t, "size": s, "kind": "isend"} for i, (t, s) in enumerate(planted[1])]
         n = len(msgs)
     maxsz = max(m["size"] for m in msgs)
+    mixed = rng.chance(1, 6)
     for i, m in enumerate(msgs):
         f = filt(mode, m)
-        rcvs.append({"rid": i, "rank": 0, "src": f[0], "tag": f[1], "buf": rng.choice([maxsz, maxsz, m["size"], 17]) if not planted else maxsz})
+        rcvs.append({"rid": i, "rank": 0, "src": f[0], "tag": f[1], "buf": rng.choice([maxsz, maxsz, m["size"], 17]) if mixed and not planted else maxsz})
     rng.shuffle(rcvs) if not planted else None
     # slots: all sends, and each post either interleaved or after the sends
     events = [("s", m) for m in msgs]
@@ -207,7 +209,7 @@ def key_of(verdict):
     """classification key from the monitor's message (a predicate on the witness)"""
     w = verdict.split("=>", 1)[1].split()
     if w[0] == "overtake":
-        return "overtake-%s-%s" % (w[1], w[2].rstrip(":"))
+        return "overtake-%s-%s-%s" % (w[1], w[2], w[3].rstrip(":"))
     return {"exact:": "exactness", "truncate:": "truncation-not-reported", "match:": "incompatible-match"}.get(w[0], "log-incomplete")
 
 
@@ -238,7 +240,7 @@ def run(ctx):
                 mode, rest = l.split(":", 1)
                 pl = [tuple(int(x) for x in t.split("/")) for t in rest.split()]
                 progs.append(gen_staged(rng.fork(len(progs)), planted=(mode.strip(), pl)))
-        n = 260 if ctx.tier == "quick" else 6000
+        n = 200 if ctx.tier == "quick" else 6000
         if ctx.broken:
             n *= 5
         for i in range(n):
@@ -249,12 +251,17 @@ def run(ctx):
         outs = list(ex.map(lambda kp: R.run(kp[0], kp[1]), list(enumerate(progs))))
     ctx.timings["harness_runs_s"] = round(time.time() - t0, 2)
     lines, idx = [], []
-    kinds = {}
+    kinds, kinds_fail = {}, {}
     for i, (p, (rc, logs, errs, err)) in enumerate(zip(progs, outs)):
         ctx.cov["evaluations"] += 1
         kinds[p["kind"]] = kinds.get(p["kind"], 0) + 1
         if rc != 0 or errs or "eadlock" in err:
             sym = "deadlock" if "eadlock" in err else "timeout" if rc == -999 else "senderror" if errs else "exit%d" % rc
+            if sym == "deadlock" and p["thresh"] > 0 and any(
+                    r["buf"] < p["thresh"] <= m["size"] and r["rank"] == m["dst"] and r["src"] in (-1, m["src"]) and r["tag"] in (-1, m["tag"])
+                    for r in p["rcvs"] for m in p["msgs"]):
+                sym = "deadlock-truncating-recv-below-eager-thresh"
+            kinds_fail[sym] = kinds_fail.get(sym, 0) + 1
             ctx.violation("generated (deadlock-free by construction) program did not complete: %s %s" % (sym, (errs or [err[-300:]])[0]),
                           {"program": p, "rc": rc, "stderr": err[-800:]}, key="program-" + sym)
             continue
@@ -286,6 +293,7 @@ def run(ctx):
             # the mechanism model pairs differently from the library although the log satisfies the property
             ctx.broken.append({"kind": "correspondence", "verdict": v[:600], "line": l[:1500]})
     ctx.cov["distribution"] = kinds
+    keys.update({"program-" + k: v for k, v in kinds_fail.items()})
     ctx.cov["failing_keys"] = keys
     ctx.cov["configs"] = CONFIGS
     ctx.cov["samples"] = [l[:400] for l in lines[:2] + lines[-2:]]
